@@ -19,6 +19,12 @@ const version uint32 = 0x1
 // maxLen is the biggest slice/array len one can create on a 32/64b platform.
 const maxLen = int64(int(^uint(0) >> 1))
 
+// maxElems is the largest number of float64 elements that can be
+// allocated on the current architecture: the runtime refuses
+// allocations beyond 2^48 bytes on 64-bit and 2^31 bytes on 32-bit
+// platforms.
+const maxElems = (int64(1)<<(31+17*(^uint(0)>>63)) - 1) / 8
+
 var (
 	headerSize  = binary.Size(storage{})
 	sizeFloat64 = binary.Size(float64(0))
@@ -173,7 +179,7 @@ func (m *Dense) UnmarshalBinary(data []byte) error {
 		return errTooBig
 	}
 	size := rows * cols
-	if int(size) < 0 || size > maxLen {
+	if size > maxElems {
 		return errTooBig
 	}
 	if len(data) != headerSize+int(rows*cols)*sizeFloat64 {
@@ -233,7 +239,7 @@ func (m *Dense) UnmarshalBinaryFrom(r io.Reader) (int, error) {
 		return n, errTooBig
 	}
 	size := rows * cols
-	if int(size) < 0 || size > maxLen {
+	if size > maxElems {
 		return n, errTooBig
 	}
 
@@ -366,7 +372,7 @@ func (v *VecDense) UnmarshalBinary(data []byte) error {
 	if n < 0 {
 		return errBadSize
 	}
-	if int64(maxLen) < n {
+	if maxElems < n {
 		return errTooBig
 	}
 	if len(data) != headerSize+int(n)*sizeFloat64 {
@@ -415,7 +421,7 @@ func (v *VecDense) UnmarshalBinaryFrom(r io.Reader) (int, error) {
 	if l < 0 {
 		return n, errBadSize
 	}
-	if int64(maxLen) < l {
+	if maxElems < l {
 		return n, errTooBig
 	}
 
